@@ -263,6 +263,7 @@ fn sweep(t: &mut Tape, full: bool) -> Scenario {
                 behaviour: TargetBehaviour::Normal,
                 reply_from: None,
                 tcp_open: t.chance(500),
+                tcp_reject_code: None,
                 quote: Quote::Min8,
                 layout: ErrorLayout::Plain,
             },
@@ -295,6 +296,7 @@ fn sweep(t: &mut Tape, full: bool) -> Scenario {
         neighbour: None,
         record_rx: false,
         alone_equal: false,
+        clear_after_round: None,
     }
 }
 
@@ -351,6 +353,67 @@ fn g_long(t: &mut Tape) -> Scenario {
     }
     sc.stable = false;
     sc.light = true;
+    sc
+}
+
+/// C10: the state is cleared in the middle of a trace (the TUI's clear-trace-data), often with a
+/// path that is shorter afterwards: the table covers the rounds since the clear only.
+fn g_clear_midway(t: &mut Tape) -> Scenario {
+    let mut p = Profile::base();
+    p.max_rounds = 8;
+    p.max_path = 16;
+    let mut sc = gen_scenario(t, &p);
+    sc.tracer.rounds = sc.tracer.rounds.max(3);
+    let at = t.draw(sc.tracer.rounds - 1);
+    sc.clear_after_round = Some(at);
+    if t.chance(600) {
+        // the path shrinks at the round after the clear
+        let paths: Vec<crate::scenario::PathCfg> = sc
+            .net
+            .paths
+            .iter()
+            .map(|p| {
+                let mut q = p.clone();
+                let keep = 1 + t.draw(q.routers.len().max(1) as u32) as usize;
+                q.routers.truncate(keep.min(q.routers.len()));
+                q
+            })
+            .collect();
+        sc.net.route_change = Some((at + 1, paths));
+    }
+    sc.stable = false;
+    sc.epoch_liveness = false;
+    sc
+}
+
+/// C07: one whole cycle of the sequence space from a tiny initial sequence - 254 probes per
+/// round on a silent network, some 260 rounds - so that the restart is seen to land on the
+/// configured initial sequence exactly.
+fn g_full_cycle(t: &mut Tape) -> Scenario {
+    use crate::scenario::TargetBehaviour;
+    let mut sc = fault_enum_base(t.draw(fe_cfgs()));
+    let ms = 1_000_000u64;
+    sc.tracer.initial_seq = [0u16, 1, 2, 7, 255, 256][t.pick(6)];
+    sc.tracer.first_ttl = 1;
+    sc.tracer.max_ttl = 254;
+    sc.tracer.max_inflight = 254;
+    sc.tracer.rounds = 258 + t.draw(6);
+    // every round must get all of its 254 probes out: one loop iteration per probe, each with
+    // a readiness poll that times out
+    sc.tracer.min_round_ns = 0;
+    sc.tracer.max_round_ns = 30 * ms;
+    sc.tracer.grace_ns = 0;
+    sc.tracer.read_timeout_ns = ms / 50;
+    sc.tracer.tcp_connect_timeout_ns = ms / 2;
+    sc.net.target.behaviour = TargetBehaviour::Silent;
+    for path in &mut sc.net.paths {
+        for r in &mut path.routers {
+            r.silent = true;
+        }
+    }
+    sc.faults.tick_base_ns = 2_000;
+    sc.light = true;
+    sc.stable = false;
     sc
 }
 
@@ -653,7 +716,7 @@ fn sweep_scenario(t: &mut Tape, wide: bool, tier: &str) -> Scenario {
         net: NetCfg {
             paths: vec![PathCfg { routers: vec![router(1), router(2)] }],
             route_change: None,
-            target: TargetCfg { behaviour: TargetBehaviour::Normal, reply_from: None, tcp_open: true, quote, layout },
+            target: TargetCfg { behaviour: TargetBehaviour::Normal, reply_from: None, tcp_open: true, tcp_reject_code: None, quote, layout },
             probe_loss_pm: 0,
             resp_loss_pm: 0,
             dup_pm: 0,
@@ -674,6 +737,7 @@ fn sweep_scenario(t: &mut Tape, wide: bool, tier: &str) -> Scenario {
         neighbour: None,
         record_rx: false,
         alone_equal: false,
+        clear_after_round: None,
     }
 }
 
@@ -929,7 +993,7 @@ fn fault_enum_base(cfg: u32) -> Scenario {
         net: NetCfg {
             paths: vec![PathCfg { routers: vec![router(1), router(2), router(3)] }],
             route_change: None,
-            target: TargetCfg { behaviour: TargetBehaviour::Normal, reply_from: None, tcp_open: cfg % 4 < 2, quote: Quote::Min8, layout: ErrorLayout::Plain },
+            target: TargetCfg { behaviour: TargetBehaviour::Normal, reply_from: None, tcp_open: cfg % 4 < 2, tcp_reject_code: None, quote: Quote::Min8, layout: ErrorLayout::Plain },
             probe_loss_pm: 0,
             resp_loss_pm: 0,
             dup_pm: 0,
@@ -950,6 +1014,7 @@ fn fault_enum_base(cfg: u32) -> Scenario {
         neighbour: None,
         record_rx: false,
         alone_equal: false,
+        clear_after_round: None,
     }
 }
 
@@ -1112,6 +1177,7 @@ pub fn registry() -> Vec<PropertyCheck> {
             rule: "long seeded runs (50..1500 short rounds) from boundary and random initial sequences, both maximum-sequence regimes, TCP port-collision storms up to every bind failing; sequence arithmetic monitor over every send attempt plus re-delivery of all previous-round responses; a boundary walk aligns a round start with each value next to the restart limit (pilot run, then initial sequence chosen accordingly) and lets that round use its whole budget; non-trivial/distinct as for C01",
             families: vec![
                 Family { name: "wrap-aligned-storm", gen: g_wrap_aligned, oracle: oracle::c07, opts: opts_light(), quick_runs: 2_000, thorough_runs: 40_000, must_reach: &[], enum_dims: None },
+                Family { name: "full-cycle", gen: g_full_cycle, oracle: oracle::c07, opts: opts_light(), quick_runs: 96, thorough_runs: 2_000, must_reach: &[], enum_dims: None },
                 Family { name: "long-runs", gen: g_long, oracle: oracle::c07, opts: opts_light(), quick_runs: 6_000, thorough_runs: 300_000, must_reach: &[], enum_dims: None },
                 Family { name: "socket-faults", gen: g_sockfaults, oracle: oracle::c07, opts: opts_light(), quick_runs: 40_000, thorough_runs: 1_500_000, must_reach: &[], enum_dims: None },
             ],
@@ -1224,6 +1290,7 @@ pub fn registry() -> Vec<PropertyCheck> {
                 Family { name: "fault-free", gen: g_quiet, oracle: oracle::c10, opts: opts_full(), quick_runs: 40_000, thorough_runs: 1_500_000, must_reach: &[], enum_dims: None },
                 Family { name: "quiet-route-change", gen: g_quiet_change, oracle: oracle::c10, opts: opts_full(), quick_runs: 60_000, thorough_runs: 2_000_000, must_reach: &["fault.route_change"], enum_dims: None },
                 Family { name: "socket-faults", gen: g_sockfaults, oracle: oracle::c10, opts: opts_full(), quick_runs: 40_000, thorough_runs: 1_500_000, must_reach: &[], enum_dims: None },
+                Family { name: "clear-midway", gen: g_clear_midway, oracle: oracle::c10, opts: opts_full(), quick_runs: 30_000, thorough_runs: 1_000_000, must_reach: &[], enum_dims: None },
                 Family { name: "synthetic-rounds", gen: g_synth, oracle: oracle::c10, opts: opts_full(), quick_runs: 20_000, thorough_runs: 600_000, must_reach: &["reach.synthetic_round"], enum_dims: None },
             ],
             assumptions: vec![ASSUME_SIM, ASSUME_CLOCK],
